@@ -1,5 +1,6 @@
 import math
 
+import numpy as np
 import torch
 from torch.nn import functional as F
 
@@ -259,9 +260,13 @@ def cubic_spline(
             )
         )
 
+    # The normalisation to the unit square and back scales the derivative by the aspect ratio of the box.
+    log_box_scale = np.log(top - bottom) - np.log(right - left)
     if inverse:
         outputs = outputs * (right - left) + left
+        logabsdet = logabsdet - log_box_scale
     else:
         outputs = outputs * (top - bottom) + bottom
+        logabsdet = logabsdet + log_box_scale
 
     return outputs, logabsdet
